@@ -46,6 +46,7 @@ def stateDigest (s : SubState) : String :=
 def subEvent (st : TraceSt) (sid : Nat) (rest : List String) : TraceSt × String :=
   match rest with
   | "new" :: dl :: _ => (setSub st sid (SubState.init (parseNat dl)), "ok")
+  | "post.enq" :: _ => (st, "ok")          -- handle-side event of the fan-out protocol: validated by `driver p6`
   | _ =>
     match getSub st sid with
     | none => (st, "MISMATCH unknown-sub " ++ toString sid)
@@ -111,6 +112,7 @@ def subEvent (st : TraceSt) (sid : Nat) (rest : List String) : TraceSt × String
 def topicEvent (st : TraceSt) (tid : Nat) (rest : List String) : TraceSt × String :=
   match rest with
   | "new" :: _ => ({ st with topics := st.topics ++ [{ tid := tid, nextMsg := 0, subs := [], deleted := false }] }, "ok")
+  | "publish.reply" :: _ => (st, "ok")     -- end of a publish turn: validated by `driver p6`
   | _ =>
     match st.topics.find? (·.tid == tid) with
     | none => (st, "MISMATCH unknown-topic " ++ toString tid)
